@@ -275,15 +275,12 @@ impl Language for Python {
             .format_type(&ty.r#type, ty.generic_types.as_slice())
             .map_err(|e| std::io::Error::new(std::io::ErrorKind::Other, e))?;
 
-        writeln!(
-            w,
-            "{}{} = {}\n",
-            ty.id.renamed,
-            (!ty.generic_types.is_empty())
-                .then(|| format!("[{}]", ty.generic_types.join(", ")))
-                .unwrap_or_default(),
-            r#type,
-        )?;
+        // A generic alias is an ordinary assignment whose right-hand side mentions the type
+        // variables (`Alias = List[T]`, used as `Alias[int]`); they have to be declared.
+        for generic in &ty.generic_types {
+            self.add_type_var(generic.clone());
+        }
+        writeln!(w, "{} = {}\n", ty.id.renamed, r#type)?;
 
         self.write_comments(w, true, &ty.comments, 0)?;
 
